@@ -167,6 +167,7 @@ package authz
 //@   ensures  location: !IsSessionError(resp) ==> AuthLocation(HdrVal(DeniedOf(resp).Headers[2]), o.config, View[StoreFor(o.sessions, o.config).pay][LastSid].auth.state, View[StoreFor(o.sessions, o.config).pay][LastSid].auth.nonce, S256(View[StoreFor(o.sessions, o.config).pay][LastSid].auth.verifier))
 //@   ensures  login_state: !IsSessionError(resp) ==> HoldsAuth(View[StoreFor(o.sessions, o.config).pay][LastSid]) && View[StoreFor(o.sessions, o.config).pay][LastSid].auth.url == RequestedURL(httpRequest)
 //@   ensures  error_shape: IsSessionError(resp) ==> DeniedOf(resp).Status == nil && len(DeniedOf(resp).Headers) == 0
+//@   ensures  fresh_values: !IsSessionError(resp) ==> NDraw == old(NDraw) + 3 && LoginDraws(LastSid, View[StoreFor(o.sessions, o.config).pay][LastSid].auth.state, View[StoreFor(o.sessions, o.config).pay][LastSid].auth.nonce, old(NDraw))
 //@   ensures  deny_content: IsSessionError(resp) || LoginRedirect(DeniedOf(resp), o.config, View[StoreFor(o.sessions, o.config).pay][LastSid].auth, LastSid)
 
 //@ func (*oidcHandler).retrieveTokens
